@@ -6,7 +6,36 @@ from hypothesis import strategies as st
 import circuitgraph as cg
 from cgv import refsim, specs
 from cgv import strategies as S
-from cgv.harness import Violation, lib, need
+from cgv.harness import Violation, lib
+from cgv.harness import need as _need
+
+
+class _NameClash(Exception):
+    """A ValueError of a transform while two of the names it generates really coincide."""
+
+
+_CLASH = [False]
+
+
+def need(out, tag, desc):
+    if not out.ok and isinstance(out.exc, ValueError) and _CLASH[0]:
+        raise _NameClash(desc)
+    return _need(out, tag, desc)
+
+
+def _generated_names_clash(c, n):
+    """Do two of the names that sensitivity_transform / the sensitization miter derive from the circuit's own
+    names coincide (orig_<x>, inv_<s>_<x>, dif_out_<s>, pc_*, sen_out / c0_<x>, c1_<x>, dif_<e>, sat), or does
+    a circuit node carry such a name?  Then a ValueError is a clean rejection of a real clash."""
+    g = c.graph
+    allnodes = list(g.nodes)
+    sp = [x for x in allnodes if g.nodes[x]["type"] == "input"]
+    gen = [f"orig_{x}" for x in allnodes] + list(sp)
+    gen += [f"inv_{s_}_{x}" for s_ in sp for x in allnodes] + [f"dif_out_{s_}" for s_ in sp]
+    gen += [f"c0_{x}" for x in allnodes] + [f"c1_{x}" for x in allnodes] + [f"dif_{x}" for x in allnodes] + ["sat", "sen_out"]
+    if len(set(gen)) != len(gen):
+        return True
+    return any(x.startswith(("pc_", "sen_out")) for x in allnodes)
 
 ID = "C11"
 RULE = (
@@ -126,8 +155,16 @@ def _flip_diff(c, asg, W, n, endpoints):
 
 
 def check(case, ctx):
+    try:
+        return _check(case, ctx)
+    except _NameClash:
+        return {"nontrivial": False, "labels": ["rejected_generated_name_clash"]}
+
+
+def _check(case, ctx):
     spec = case["spec"]
     c = specs.build(spec)
+    _CLASH[0] = _generated_names_clash(c, case["node"])
     if refsim.ref_lint(c):
         raise specs.SpecError("generator produced non-lint-clean circuit")
     n = case["node"]
